@@ -19,7 +19,13 @@
     partition whose watermark gates the read.  The storage API takes partition key and partition id
     independently (Transaction::new); the servers derive the id from the key (hash % num_partitions).
     Without it the statement is false ([br_unrouted_stream_refuted]); with the routing discipline
-    [br_routed f ops] it holds for every reachable store ([br_routed_stream_in_partition]). *)
+    [br_routed f ops] it holds for every reachable store ([br_routed_stream_in_partition]).
+
+    Section 3: the log-derived iterator model of Model/ClusterRead.v ([cr_partition_commits], [cr_stream_commits],
+    [cr_watermark] on a [cr_log] — what the C07 driver runs) coincides with the converted scan on [br_log].
+    Section 4: the read loops driving ONE real iterator with state-dependent [next_batch] limits
+    ([partition_read_store], [stream_read_store]) equal the oracle-batched loops for every oracle.
+    Section 5: GetStreamVersion over the real reverse scan. *)
 From Coq Require Import NArith Arith PeanoNat List Bool Lia.
 From SV Require Import Model.StoreIter Proofs.ScanProofs Proofs.ScanGlue.
 From SV Require Import Model.Watermark Proofs.WatermarkProofs Model.ClusterRead Proofs.ClusterReadProofs.
@@ -478,3 +484,638 @@ Proof.
     split; [reflexivity|]. split; [|split; vm_compute; reflexivity].
     intros lo H. cbn [concat app sincr snd] in H. lia.
 Qed.
+
+(** ---- 3. the log-derived iterator model of Model/ClusterRead.v IS the real scan ------------------------------
+    Model/ClusterRead.v also says what the iterators yield "from a partition log" ([cr_partition_commits],
+    [cr_stream_commits] over a [cr_log] = the partition's transactions as lists of (stream, count)); these are
+    the functions the C07 driver runs and [cr_watermark] is computed on.  [br_log conf l pid] is that log for
+    partition [pid] of the stored log [l]; on it the two functions return exactly the converted scan result,
+    and [cr_watermark] is [br_watermark]. *)
+Definition br_log (conf : event -> N) (l : alog) (pid : N) : cr_log :=
+  map (map (fun e => (e_sid e, conf e))) (filter nonnil (map (filter (fun e => e_pid e =? pid)) l)).
+
+Lemma br_log_counts conf l pid : cr_counts (br_log conf l pid) = map conf (br_pevents l pid).
+Proof.
+  unfold cr_counts, br_log, br_pevents, all_events.
+  rewrite br_concat_map, map_map, concat_filter_nonnil, <- filter_concat. reflexivity.
+Qed.
+
+Theorem br_log_watermark rf conf l pid :
+  cr_watermark rf (br_log conf l pid) = br_watermark (wm_quorum rf) conf l pid.
+Proof. unfold cr_watermark. rewrite br_log_counts. apply br_watermark_is_initialize. Qed.
+
+Lemma br_log_cons conf g l pid :
+  br_log conf (g :: l) pid =
+  match filter (fun e => e_pid e =? pid) g with
+  | [] => br_log conf l pid
+  | gp => map (fun e => (e_sid e, conf e)) gp :: br_log conf l pid
+  end.
+Proof. unfold br_log. cbn [map filter]. destruct (filter (fun e => e_pid e =? pid) g); reflexivity. Qed.
+
+Lemma br_filter_and {A} (a b : A -> bool) l : filter (fun x => a x && b x) l = filter b (filter a l).
+Proof. induction l as [|x l IH]; cbn; [reflexivity|]. destruct (a x); cbn; [destruct (b x)|]; rewrite IH; reflexivity. Qed.
+
+Lemma br_Efwd_cons k p g l :
+  Efwd k p (g :: l) =
+  match filter (fun e => p <=? key_pos k e) (filter (matches k) g) with
+  | [] => Efwd k p l
+  | x => x :: Efwd k p l
+  end.
+Proof.
+  unfold Efwd. cbn [map filter].
+  assert (E : filter (Pge k p) g = filter (fun e => p <=? key_pos k e) (filter (matches k) g))
+    by (unfold Pge; apply br_filter_and).
+  rewrite E.
+  destruct (filter (fun e => p <=? key_pos k e) (filter (matches k) g)); reflexivity.
+Qed.
+
+(** the key's events of a stretch of the log carry the positions c, c+1, ... *)
+Lemma br_posincr_range k : forall g c, posincr k (fun e : event => e) c g ->
+  map (key_pos k) (filter (matches k) g) = cr_range c (length (filter (matches k) g)).
+Proof.
+  induction g as [|e g IH]; intros c H; [reflexivity|]. cbn [posincr] in H. unfold mt in H. cbn [filter].
+  destruct (matches k e).
+  - destruct H as [H1 H2]. cbn [map length cr_range]. rewrite H1, (IH _ H2). reflexivity.
+  - apply IH. assumption.
+Qed.
+
+Lemma br_cr_nonempty_cons {A} (x : list A) r :
+  cr_nonempty (x :: r) = match x with [] => cr_nonempty r | _ => x :: cr_nonempty r end.
+Proof. unfold cr_nonempty. cbn [filter]. destruct x; reflexivity. Qed.
+
+Lemma br_pcommits_log conf pid start : forall l c,
+  posincr (KPartition pid) (fun e : event => e) c (concat l) ->
+  cr_nonempty (cr_pcommits (br_log conf l pid) c start) = map (map e_seq) (Efwd (KPartition pid) start l).
+Proof.
+  induction l as [|g l IH]; intros c H; [reflexivity|].
+  cbn [concat] in H. apply posincr_app in H. destruct H as [Hg Hl].
+  pose proof (br_posincr_range _ _ _ Hg) as R. unfold kcount in Hl.
+  change (filter (mt (KPartition pid) (fun e : event => e)) g) with (filter (fun e => e_pid e =? pid) g) in Hl.
+  change (filter (matches (KPartition pid)) g) with (filter (fun e => e_pid e =? pid) g) in R.
+  change (key_pos (KPartition pid)) with e_seq in R.
+  rewrite br_log_cons, br_Efwd_cons.
+  change (filter (matches (KPartition pid)) g) with (filter (fun e => e_pid e =? pid) g).
+  change (key_pos (KPartition pid)) with e_seq.
+  remember (filter (fun e => e_pid e =? pid) g) as gp eqn:Egp. destruct gp as [|e0 gp'].
+  - cbn [filter]. cbn [length] in Hl. rewrite N.add_0_r in Hl. apply IH. assumption.
+  - cbn [cr_pcommits]. rewrite map_length, br_cr_nonempty_cons, (IH _ Hl), <- R, br_filter_map.
+    destruct (filter (fun e => start <=? e_seq e) (e0 :: gp')) as [|z zs]; reflexivity.
+Qed.
+
+Theorem br_partition_commits_log s pid conf start :
+  Scannable s (KPartition pid) ->
+  cr_partition_commits (br_log conf (abs_visible s) pid) start
+  = map (map e_seq) (Efwd (KPartition pid) start (abs_visible s)).
+Proof.
+  intros HS. unfold cr_partition_commits. apply br_pcommits_log.
+  pose proof (all_posincr s _ HS) as Hp. rewrite <- all_events_Ls in Hp. exact Hp.
+Qed.
+
+(** streams: versions are ranks within the stream, sequences positions within the partition *)
+Lemma br_posincr_filter k (p : event -> bool) : forall g c,
+  (forall e, In e g -> matches k e = true -> p e = true) ->
+  posincr k (fun e : event => e) c g -> posincr k (fun e : event => e) c (filter p g).
+Proof.
+  induction g as [|e g IH]; intros c Hp H; [exact I|]. cbn [posincr filter] in *. unfold mt in *.
+  destruct (matches k e) eqn:Em.
+  - rewrite (Hp e (or_introl eq_refl) Em). cbn [posincr]. unfold mt. rewrite Em. destruct H as [H1 H2].
+    split; [assumption|]. apply IH; [|assumption]. intros x Hx. apply Hp. right. assumption.
+  - assert (IH' : posincr k (fun e : event => e) c (filter p g)).
+    { apply IH; [|assumption]. intros x Hx. apply Hp. right. assumption. }
+    destruct (p e); [|assumption]. cbn [posincr]. unfold mt. rewrite Em. assumption.
+Qed.
+
+Lemma br_sview_commit conf x pid : forall gp cv cs,
+  (forall e, In e gp -> e_pid e = pid) ->
+  posincr (KStream x) (fun e : event => e) cv gp -> posincr (KPartition pid) (fun e : event => e) cs gp ->
+  cr_sview_commit x (map (fun e => (e_sid e, conf e)) gp) cv cs
+  = (map br_sev (filter (fun e => e_sid e =? x) gp), cv + N.of_nat (length (filter (fun e => e_sid e =? x) gp))).
+Proof.
+  induction gp as [|e gp IH]; intros cv cs Hin Hv Hs.
+  - cbn. rewrite N.add_0_r. reflexivity.
+  - cbn [posincr] in Hv, Hs. unfold mt in Hv, Hs. cbn [matches] in Hv, Hs.
+    rewrite (proj2 (N.eqb_eq _ _) (Hin e (or_introl eq_refl))) in Hs. destruct Hs as [Hs1 Hs2].
+    assert (Hin' : forall e', In e' gp -> e_pid e' = pid) by (intros e' He'; apply Hin; right; assumption).
+    cbn [map cr_sview_commit filter]. destruct (e_sid e =? x).
+    + destruct Hv as [Hv1 Hv2]. rewrite (IH _ _ Hin' Hv2 Hs2). cbn [map length key_pos] in *.
+      unfold br_sev. rewrite Hv1, Hs1. f_equal. lia.
+    + apply IH; assumption.
+Qed.
+
+Lemma br_scommits_log conf x pid start : forall l cv cs,
+  (forall e, In e (concat l) -> e_sid e = x -> e_pid e = pid) ->
+  posincr (KStream x) (fun e : event => e) cv (concat l) ->
+  posincr (KPartition pid) (fun e : event => e) cs (concat l) ->
+  cr_nonempty (map (filter (fun e => start <=? fst e)) (cr_sview x (br_log conf l pid) cv cs))
+  = map (map br_sev) (Efwd (KStream x) start l).
+Proof.
+  induction l as [|g l IH]; intros cv cs Hin Hv Hs; [reflexivity|].
+  cbn [concat] in Hin, Hv, Hs. apply posincr_app in Hv, Hs. destruct Hv as [Hvg Hvl], Hs as [Hsg Hsl].
+  unfold kcount in Hvl, Hsl.
+  change (filter (mt (KStream x) (fun e : event => e)) g) with (filter (fun e => e_sid e =? x) g) in Hvl.
+  change (filter (mt (KPartition pid) (fun e : event => e)) g) with (filter (fun e => e_pid e =? pid) g) in Hsl.
+  assert (Hinl : forall e, In e (concat l) -> e_sid e = x -> e_pid e = pid).
+  { intros e He. apply Hin. apply in_or_app. right. assumption. }
+  (* the stream's events of g are those of its partition part *)
+  assert (Hsg' : filter (fun e => e_sid e =? x) (filter (fun e => e_pid e =? pid) g) = filter (fun e => e_sid e =? x) g).
+  { apply br_filter_filter_imp. intros e He Hx. apply N.eqb_eq. apply Hin; [apply in_or_app; left; assumption|].
+    apply N.eqb_eq. assumption. }
+  rewrite br_log_cons, br_Efwd_cons.
+  change (filter (matches (KStream x)) g) with (filter (fun e => e_sid e =? x) g).
+  change (key_pos (KStream x)) with e_ver.
+  assert (Hgp_in : forall e, In e (filter (fun e => e_pid e =? pid) g) -> e_pid e = pid).
+  { intros e He. apply filter_In in He. apply N.eqb_eq. apply He. }
+  assert (Hvgp : posincr (KStream x) (fun e : event => e) cv (filter (fun e => e_pid e =? pid) g)).
+  { apply br_posincr_filter; [|assumption]. intros e He Hx. cbn in Hx. apply N.eqb_eq in Hx.
+    apply N.eqb_eq. apply Hin; [apply in_or_app; left; assumption|assumption]. }
+  assert (Hsgp : posincr (KPartition pid) (fun e : event => e) cs (filter (fun e => e_pid e =? pid) g)).
+  { apply br_posincr_filter; [|assumption]. intros e He Hx. exact Hx. }
+  pose proof (br_sview_commit conf x pid _ cv cs Hgp_in Hvgp Hsgp) as SV. rewrite Hsg' in SV.
+  remember (filter (fun e => e_pid e =? pid) g) as gp eqn:Egp. destruct gp as [|e0 gp'].
+  - rewrite <- Hsg'. cbn [filter]. rewrite <- Hsg' in Hvl. cbn [filter length] in Hvl, Hsl.
+    rewrite N.add_0_r in Hvl, Hsl. apply IH; assumption.
+  - cbn [cr_sview]. rewrite SV, map_length.
+    cbn [map]. rewrite br_cr_nonempty_cons, (IH _ _ Hinl Hvl Hsl), br_filter_map.
+    cbn [br_sev fst].
+    destruct (filter (fun e => start <=? e_ver e) (filter (fun e => e_sid e =? x) g)) as [|z zs]; reflexivity.
+Qed.
+
+Theorem br_stream_commits_log s x pid conf start :
+  Scannable s (KStream x) -> Scannable s (KPartition pid) -> br_stream_in_partition (abs_visible s) x pid ->
+  cr_stream_commits x (br_log conf (abs_visible s) pid) start
+  = map (map br_sev) (Efwd (KStream x) start (abs_visible s)).
+Proof.
+  intros HS HP Hin. unfold cr_stream_commits. apply br_scommits_log.
+  - exact Hin.
+  - pose proof (all_posincr s _ HS) as Hp. rewrite <- all_events_Ls in Hp. exact Hp.
+  - pose proof (all_posincr s _ HP) as Hp. rewrite <- all_events_Ls in Hp. exact Hp.
+Qed.
+
+(** the statements in terms of [scan] *)
+Theorem partition_commits_are_scan s pid conf start limit :
+  Scannable s (KPartition pid) -> (0 < limit)%nat ->
+  exists batches, scan s (KPartition pid) start Fwd limit = Some batches /\
+    br_pcommits batches = cr_partition_commits (br_log conf (abs_visible s) pid) start.
+Proof.
+  intros HS Hl. destruct (forward_groups s _ start limit HS Hl) as (b & Hb & Hg & _).
+  exists b. split; [assumption|]. unfold br_pcommits, br_groups. rewrite Hg. symmetry.
+  apply br_partition_commits_log. assumption.
+Qed.
+
+Theorem stream_commits_are_scan s x pid conf start limit :
+  Scannable s (KStream x) -> Scannable s (KPartition pid) -> br_stream_in_partition (abs_visible s) x pid ->
+  (0 < limit)%nat ->
+  exists batches, scan s (KStream x) start Fwd limit = Some batches /\
+    br_scommits batches = cr_stream_commits x (br_log conf (abs_visible s) pid) start.
+Proof.
+  intros HS HP Hin Hl. destruct (forward_groups s _ start limit HS Hl) as (b & Hb & Hg & _).
+  exists b. split; [assumption|]. unfold br_scommits, br_groups. rewrite Hg. symmetry.
+  apply br_stream_commits_log; assumption.
+Qed.
+
+Theorem run_partition_commits_are_scan ops pid conf rf start limit :
+  Forall StoreSimProofs.wf_op ops -> (0 < limit)%nat ->
+  let log := br_log conf (abs_visible (run ops)) pid in
+  (exists batches, scan (run ops) (KPartition pid) start Fwd limit = Some batches /\
+     br_pcommits batches = cr_partition_commits log start) /\
+  cr_watermark rf log = br_watermark (wm_quorum rf) conf (abs_visible (run ops)) pid.
+Proof.
+  intros W Hl. cbn zeta. split; [|apply br_log_watermark].
+  apply partition_commits_are_scan; [apply run_Scannable|]; assumption.
+Qed.
+
+Theorem run_stream_commits_are_scan f ops x pk conf start limit :
+  Forall StoreSimProofs.wf_op ops -> br_routed f ops ->
+  (forall e, In e (all_events (abs_visible (run ops))) -> e_sid e = x -> e_pk e = pk) -> (0 < limit)%nat ->
+  exists batches, scan (run ops) (KStream x) start Fwd limit = Some batches /\
+    br_scommits batches = cr_stream_commits x (br_log conf (abs_visible (run ops)) (f pk)) start.
+Proof.
+  intros W R Hpk Hl. apply stream_commits_are_scan; try apply run_Scannable; try assumption.
+  apply br_routed_stream_in_partition; assumption.
+Qed.
+
+(** ---- 4. the read loops DRIVING the real iterator ----------------------------------------------------------
+    Above the loops of Model/ClusterRead.v run on the commits of a whole [scan] with one fixed batch limit, the
+    batch cuts being an oracle.  The code does something more entangled: it creates ONE iterator and calls
+    [next_batch(limit)] with a limit computed from its own state before every call (`min(eff - last, 50)`, resp.
+    `(end - last).clamp(1, 50)`), handles the returned batch, and stops when a break condition holds or the
+    iterator is exhausted.  [partition_read_store] / [stream_read_store] are exactly that, on the iterator of
+    Model/StoreIter.v ([iter_new], [next_batch]); they are proved equal to [partition_read] / [stream_read] on the
+    converted scan result FOR EVERY ORACLE — so the oracle abstraction loses nothing, and every C07 theorem
+    transfers to the loop over the real iterator. *)
+Definition br_nb_fuel (s : store) : nat :=
+  S (S (nsegs s + length (concat (map (fun g => s_recs g) (sealed s))) + length (s_recs (live s)))).
+Definition br_loop_fuel (s : store) : nat :=
+  S (length (concat (map (fun g => s_recs g) (sealed s))) + length (s_recs (live s))).
+
+(** `for commit in commits { for event in commit { .. break 'iter .. } }` and the two checks after it;
+    the flag says that the read is over *)
+Fixpoint pr_batch (cs : list (list N)) (count eff : N) (st : pr_state) : pr_state * bool :=
+  match cs with
+  | [] => (st, (count <=? pr_collected st) || (eff <=? pr_last st))
+  | c :: t => let '(st', broke) := pr_events c count eff st in
+              if broke then (st', true) else pr_batch t count eff st'
+  end.
+
+Fixpoint pr_store_loop (s : store) (pid : N) (it : biter) (count eff : N) (st : pr_state) (fuel : nat)
+  : option pr_state :=
+  match fuel with
+  | O => None
+  | S f =>
+      let limit := N.min (eff - pr_last st) cr_batch in
+      if limit =? 0 then Some st
+      else match next_batch s (KPartition pid) Fwd (N.to_nat limit) it (br_nb_fuel s) with
+           | BDone => Some st
+           | BError => None
+           | BBatch cs it' =>
+               let '(st', stop) := pr_batch (map (fun c => map e_seq (committed_events c)) cs) count eff st in
+               if stop then Some st' else pr_store_loop s pid it' count eff st' f
+           end
+  end.
+
+(** handle_partition_read_locally on the storage model; None = iterator error / fuel (never: see below) *)
+Definition partition_read_store (s : store) (pid W start : N) (endo : option N) (count : N)
+  : option (list N * bool) :=
+  if W <=? start then Some ([], false)
+  else match pr_store_loop s pid (iter_new s (KPartition pid) start Fwd) count (pr_eff W endo)
+                           (mkPr [] 0 start) (br_loop_fuel s) with
+       | Some st => Some (pr_acc st, pr_last st <? W)
+       | None => None
+       end.
+
+Fixpoint sr_batch (cs : list (list (N * N))) (count W : N) (endo : option N) (st : sr_state) : sr_state * bool :=
+  match cs with
+  | [] => (st, false)
+  | c :: t =>
+      let '(st', b) := sr_events c count W endo st in
+      match b with
+      | SrIter => (st', true)
+      | _ => if count <=? sr_collected st' then (sr_set_more st', true)
+             else if sr_reached endo (sr_last st') then (st', true)
+             else sr_batch t count W endo st'
+      end
+  end.
+
+Fixpoint sr_store_loop (s : store) (sid : N) (it : biter) (count W : N) (endo : option N) (st : sr_state)
+  (fuel : nat) : option sr_state :=
+  match fuel with
+  | O => None
+  | S f =>
+      match next_batch s (KStream sid) Fwd (N.to_nat (sr_limit endo (sr_last st))) it (br_nb_fuel s) with
+      | BDone => Some st
+      | BError => None
+      | BBatch cs it' =>
+          let '(st', stop) := sr_batch (map (fun c => map br_sev (committed_events c)) cs) count W endo st in
+          if stop then Some st' else sr_store_loop s sid it' count W endo st' f
+      end
+  end.
+
+Definition stream_read_store (s : store) (sid start W : N) (endo : option N) (count : N)
+  : option (list (N * N) * bool) :=
+  match sr_store_loop s sid (iter_new s (KStream sid) start Fwd) count W endo (mkSr [] 0 0 false)
+                      (br_loop_fuel s) with
+  | Some st => Some (sr_acc st, sr_more st)
+  | None => None
+  end.
+
+(** ---- one batch against the flat loop ---- *)
+Lemma pr_batch_flat count eff : forall b rest st st1 stop,
+  cincr (pr_last st) (concat b ++ rest) ->
+  pr_batch b count eff st = (st1, stop) ->
+  fst (pr_events (concat b ++ rest) count eff st)
+  = (if stop then st1 else fst (pr_events rest count eff st1)) /\
+  (stop = false -> cincr (pr_last st1) rest).
+Proof.
+  induction b as [|c t IH]; intros rest st st1 stop Hi H.
+  - cbn [pr_batch] in H. injection H as <- <-. cbn [concat app] in *.
+    destruct (count <=? pr_collected st) eqn:E1; cbn [orb].
+    + split; [|discriminate]. apply pr_stuck. left. apply N.leb_le. assumption.
+    + destruct (eff <=? pr_last st) eqn:E2.
+      * split; [|discriminate]. apply pr_stuck. right. intros e He. apply N.leb_le in E2.
+        pose proof (incr_ge _ _ Hi e He). lia.
+      * split; [reflexivity|]. intros _. assumption.
+  - cbn [pr_batch] in H. cbn [concat] in *. rewrite <- app_assoc in *. rewrite pr_events_app.
+    apply incr_app in Hi. destruct Hi as [Hc Ht].
+    destruct (pr_events c count eff st) as [st' br] eqn:E. destruct br.
+    + injection H as <- <-. split; [reflexivity|discriminate].
+    + rewrite <- (pr_events_nobreak _ _ _ _ _ E) in Ht. apply (IH _ _ _ _ Ht H).
+Qed.
+
+Lemma sr_loop_indep count W endo cs : forall l o l' o' st,
+  sr_loop cs l o count W endo st = sr_loop cs l' o' count W endo st.
+Proof.
+  induction cs as [|c t IH]; intros l o l' o' st; [reflexivity|].
+  destruct (sr_loop_step c t l o count W endo st) as (l1 & o1 & ->).
+  destruct (sr_loop_step c t l' o' count W endo st) as (l2 & o2 & ->).
+  destruct (sr_events c count W endo st) as [st' b].
+  destruct b; try reflexivity;
+    (destruct (count <=? sr_collected st'); [reflexivity|];
+     destruct (sr_reached endo (sr_last st')); [reflexivity|apply IH]).
+Qed.
+
+Lemma sr_batch_flat count W endo : forall b rest l o st st1 stop,
+  sr_batch b count W endo st = (st1, stop) ->
+  sr_loop (b ++ rest) l o count W endo st
+  = (if stop then st1 else sr_loop rest 0 [] count W endo st1).
+Proof.
+  induction b as [|c t IH]; intros rest l o st st1 stop H.
+  - cbn [sr_batch] in H. injection H as <- <-. cbn [app]. apply sr_loop_indep.
+  - cbn [sr_batch] in H. cbn [app].
+    destruct (sr_loop_step c (t ++ rest) l o count W endo st) as (l1 & o1 & ->).
+    destruct (sr_events c count W endo st) as [st' b]. destruct b.
+    + destruct (count <=? sr_collected st'); [injection H as <- <-; reflexivity|].
+      destruct (sr_reached endo (sr_last st')); [injection H as <- <-; reflexivity|]. apply (IH _ _ _ _ _ _ H).
+    + destruct (count <=? sr_collected st'); [injection H as <- <-; reflexivity|].
+      destruct (sr_reached endo (sr_last st')); [injection H as <- <-; reflexivity|]. apply (IH _ _ _ _ _ _ H).
+    + injection H as <- <-. reflexivity.
+Qed.
+
+(** ---- the loops over the iterator ---- *)
+Section Driven.
+Variables (s : store) (k : skey).
+Hypothesis HS : Scannable s k.
+
+Lemma br_next_batch limit it i G : (1 <= limit)%nat -> FwdState s k it i G ->
+  fwd_result s k limit (map (kfilter k) G ++ Elater s k i) (next_batch s k Fwd limit it (br_nb_fuel s)).
+Proof.
+  intros Hl Hst. apply (fwd_batch s k HS limit Hl (live_id s) it i G); [lia| |assumption].
+  unfold br_nb_fuel, nsegs, live_id. lia.
+Qed.
+
+Lemma br_groups_bound from : (length (Efwd k from (abs_visible s)) < br_loop_fuel s)%nat.
+Proof.
+  pose proof (Efwd_length k from (abs_visible s)). pose proof (visible_length s k HS).
+  unfold total_recs, br_loop_fuel in *. apply Nat.lt_succ_r. eapply Nat.le_trans; eassumption.
+Qed.
+End Driven.
+
+Lemma br_split_groups {B} (f : event -> B) n (E : list (list event)) :
+  map f (concat E) = concat (map (map f) (firstn n E)) ++ map f (concat (skipn n E)).
+Proof.
+  rewrite <- (firstn_skipn n E) at 1. rewrite concat_app, map_app, br_concat_map. reflexivity.
+Qed.
+
+Lemma pr_store_loop_flat s pid count eff : Scannable s (KPartition pid) ->
+  forall fuel it i G st,
+  FwdState s (KPartition pid) it i G ->
+  let E := map (kfilter (KPartition pid)) G ++ Elater s (KPartition pid) i in
+  (length E < fuel)%nat -> cincr (pr_last st) (map e_seq (concat E)) ->
+  pr_store_loop s pid it count eff st fuel = Some (fst (pr_events (map e_seq (concat E)) count eff st)).
+Proof.
+  intros HS. induction fuel as [|f IH]; intros it i G st Hst E Hlen Hi; [lia|].
+  cbn [pr_store_loop]. destruct (N.min (eff - pr_last st) cr_batch =? 0) eqn:EL.
+  - f_equal. symmetry. apply pr_stuck. right. intros e He. apply N.eqb_eq in EL. unfold cr_batch in EL.
+    pose proof (incr_ge _ _ Hi e He). lia.
+  - apply N.eqb_neq in EL.
+    destruct (br_next_batch s _ HS (N.to_nat (N.min (eff - pr_last st) cr_batch)) it i G ltac:(lia) Hst)
+      as [[HE ->]|(cs & it' & j & G' & n & -> & Hn & Hcsn & Hcs & Hst' & HE')].
+    + fold E in HE. rewrite HE. reflexivity.
+    + fold E in Hcs, HE'.
+      assert (Hb : map (fun c => map e_seq (committed_events c)) cs = map (map e_seq) (firstn n E)).
+      { rewrite <- Hcs, map_map. reflexivity. }
+      rewrite Hb. rewrite (br_split_groups e_seq n E) in Hi |- *.
+      destruct (pr_batch (map (map e_seq) (firstn n E)) count eff st) as [st1 stop] eqn:EB.
+      destruct (pr_batch_flat count eff _ _ _ _ _ Hi EB) as [F1 F2]. rewrite F1. destruct stop; [reflexivity|].
+      rewrite <- HE' in *. apply IH; [assumption| |apply F2; reflexivity].
+      rewrite HE', skipn_length. pose proof (f_equal (@length _) Hcs) as Hl'.
+      rewrite map_length, firstn_length in Hl'. lia.
+Qed.
+
+Lemma sr_store_loop_flat s sid count W endo : Scannable s (KStream sid) ->
+  forall fuel it i G st,
+  FwdState s (KStream sid) it i G ->
+  let E := map (kfilter (KStream sid)) G ++ Elater s (KStream sid) i in
+  (length E < fuel)%nat ->
+  sr_store_loop s sid it count W endo st fuel = Some (sr_loop (map (map br_sev) E) 0 [] count W endo st).
+Proof.
+  intros HS. induction fuel as [|f IH]; intros it i G st Hst E Hlen; [lia|].
+  cbn [sr_store_loop].
+  assert (Hlim : (1 <= N.to_nat (sr_limit endo (sr_last st)))%nat).
+  { pose proof (sr_limit_pos endo (sr_last st)) as P. apply N.eqb_neq in P. lia. }
+  destruct (br_next_batch s _ HS _ it i G Hlim Hst)
+    as [[HE ->]|(cs & it' & j & G' & n & -> & Hn & Hcsn & Hcs & Hst' & HE')].
+  - fold E in HE. rewrite HE. reflexivity.
+  - fold E in Hcs, HE'.
+    assert (Hb : map (fun c => map br_sev (committed_events c)) cs = map (map br_sev) (firstn n E)).
+    { rewrite <- Hcs, map_map. reflexivity. }
+    rewrite Hb. rewrite <- (firstn_skipn n E) at 2. rewrite map_app.
+    destruct (sr_batch (map (map br_sev) (firstn n E)) count W endo st) as [st1 stop] eqn:EB.
+    rewrite (sr_batch_flat count W endo _ _ _ _ _ _ _ EB). destruct stop; [reflexivity|].
+    rewrite <- HE'. apply IH; [assumption|]. rewrite HE', skipn_length.
+    pose proof (f_equal (@length _) Hcs) as Hl'. rewrite map_length, firstn_length in Hl'. lia.
+Qed.
+
+(** the start: [iter_new] *)
+Lemma br_iter_new s k from : Scannable s k ->
+  let it := iter_new s k from Fwd in
+  (b_seg it = None /\ Efwd k from (abs_visible s) = []) \/
+  (exists j G, FwdState s k it j G /\ map (kfilter k) G ++ Elater s k j = Efwd k from (abs_visible s)).
+Proof.
+  intros HS. cbn zeta. unfold iter_new. rewrite Efwd_visible.
+  destruct (new_inner_fwd s k HS 0 from ltac:(lia) ltac:(rewrite cpos_0; lia)) as [[Hn HE]|(j & G & _ & Hst & HE)].
+  - left. split; assumption.
+  - right. exists j, G. split; assumption.
+Qed.
+
+(** ---- the theorems ---- *)
+Theorem partition_read_store_is_model s pid W start endo count limit orc :
+  Scannable s (KPartition pid) -> (0 < limit)%nat ->
+  exists batches, scan s (KPartition pid) start Fwd limit = Some batches /\
+    partition_read_store s pid W start endo count
+    = Some (partition_read (br_pcommits batches) orc W start endo count).
+Proof.
+  intros HS Hl. destruct (forward_groups s _ start limit HS Hl) as (b & Hb & Hg & _).
+  exists b. split; [assumption|].
+  pose proof (scan_meets_partition_hypothesis _ _ _ _ _ HS Hl Hb) as Hi.
+  unfold partition_read_store, partition_read. destruct (W <=? start); [reflexivity|].
+  rewrite (pr_loop_flat _ _ _ 0 orc (mkPr [] 0 start)) by exact Hi.
+  assert (Hc : concat (br_pcommits b) = map e_seq (concat (Efwd (KPartition pid) start (abs_visible s)))).
+  { unfold br_pcommits, br_groups. rewrite Hg. apply br_concat_map. }
+  rewrite Hc in *.
+  destruct (br_iter_new s _ start HS) as [[Hn HE]|(j & G & Hst & HE)].
+  - rewrite HE. unfold br_loop_fuel. cbn [pr_store_loop].
+    destruct (N.min (pr_eff W endo - pr_last (mkPr [] 0 start)) cr_batch =? 0); [reflexivity|].
+    unfold br_nb_fuel. rewrite next_batch_none by assumption. reflexivity.
+  - rewrite <- HE in *. rewrite (pr_store_loop_flat s pid count (pr_eff W endo) HS _ _ j G _ Hst).
+    + reflexivity.
+    + rewrite HE. apply br_groups_bound. assumption.
+    + exact Hi.
+Qed.
+
+Theorem stream_read_store_is_model s sid W start endo count limit orc :
+  Scannable s (KStream sid) -> (0 < limit)%nat ->
+  exists batches, scan s (KStream sid) start Fwd limit = Some batches /\
+    stream_read_store s sid start W endo count
+    = Some (stream_read (br_scommits batches) orc W endo count).
+Proof.
+  intros HS Hl. destruct (forward_groups s _ start limit HS Hl) as (b & Hb & Hg & _).
+  exists b. split; [assumption|].
+  unfold stream_read_store, stream_read.
+  rewrite (sr_loop_indep count W endo (br_scommits b) 0 orc 0 []).
+  unfold br_scommits, br_groups. rewrite Hg.
+  destruct (br_iter_new s _ start HS) as [[Hn HE]|(j & G & Hst & HE)].
+  - rewrite HE. unfold br_loop_fuel. cbn [sr_store_loop]. unfold br_nb_fuel.
+    rewrite next_batch_none by assumption. reflexivity.
+  - rewrite <- HE. rewrite (sr_store_loop_flat s sid count W endo HS _ _ j G _ Hst); [reflexivity|].
+    rewrite HE. apply br_groups_bound. assumption.
+Qed.
+
+(** for every reachable store, with everything C07 says about the result *)
+Theorem run_partition_read_store ops pid conf q start endo count :
+  Forall StoreSimProofs.wf_op ops ->
+  let s := run ops in
+  let W := br_watermark q conf (abs_visible s) pid in
+  exists r, partition_read_store s pid W start endo count = Some r /\
+    fst r = map e_seq (firstn (N.to_nat count)
+                         (filter (br_prange W endo) (spec_scan_partition_fwd (abs_visible s) pid start))) /\
+    (forall x, In x (fst r) -> x < W) /\
+    (snd r = false ->
+     forall e, In e (spec_scan_partition_fwd (abs_visible s) pid start) -> br_prange W endo e = true ->
+               In (e_seq e) (fst r)).
+Proof.
+  intros Wf. cbn zeta. pose proof (run_Scannable ops (KPartition pid) Wf) as HS.
+  destruct (partition_read_store_is_model _ pid (br_watermark q conf (abs_visible (run ops)) pid) start endo count
+              1%nat [] HS ltac:(lia)) as (b & Hb & Hr).
+  destruct (partition_read_over_scannable _ pid conf q start endo count 1%nat [] HS ltac:(lia)) as (b' & Hb' & H).
+  assert (b' = b) by congruence. subst b'. eexists. split; [exact Hr|exact H].
+Qed.
+
+Theorem run_stream_read_store f ops sid pk conf q start endo count :
+  Forall StoreSimProofs.wf_op ops -> br_routed f ops ->
+  (forall e, In e (all_events (abs_visible (run ops))) -> e_sid e = sid -> e_pk e = pk) ->
+  let s := run ops in
+  let W := br_watermark q conf (abs_visible s) (f pk) in
+  exists r, stream_read_store s sid start W endo count = Some r /\
+    fst r = map br_sev (firstn (N.to_nat count)
+                          (filter (br_srange W endo) (spec_scan_stream_fwd (abs_visible s) sid start))) /\
+    (forall x, In x (fst r) -> snd x < W) /\
+    (snd r = false ->
+     fst r = map br_sev (filter (br_srange W endo) (spec_scan_stream_fwd (abs_visible s) sid start))).
+Proof.
+  intros Wf R Hpk. cbn zeta. pose proof (run_Scannable ops (KStream sid) Wf) as HS.
+  destruct (stream_read_store_is_model _ sid (br_watermark q conf (abs_visible (run ops)) (f pk)) start endo count
+              1%nat [] HS ltac:(lia)) as (b & Hb & Hr).
+  destruct (stream_read_over_scannable _ sid (f pk) conf q start endo count 1%nat [] HS
+              (run_Scannable ops (KPartition (f pk)) Wf) (br_routed_stream_in_partition f ops sid pk Wf R Hpk)
+              ltac:(lia)) as (b' & Hb' & H).
+  assert (b' = b) by congruence. subst b'. eexists. split; [exact Hr|exact H].
+Qed.
+
+(** ---- 5. GetStreamVersion over the real reverse scan ---------------------------------------------------------
+    [stream_version] consumes the commits `read_stream(.., u64::MAX, Reverse)` yields, which Model/ClusterRead.v
+    describes as [cr_rev_commits groups]: one commit per event, newest first, each the suffix of its transaction.
+    That is what the reverse scan of Model/StoreIter.v returns (C03_reverse_groups), with [groups] = the stored
+    transactions restricted to the stream. *)
+Lemma br_ucons_tails k es : map ucons (ksufp k es) = cr_tails (filter (matches k) es).
+Proof.
+  induction es as [|e es IH]; [reflexivity|]. cbn [ksufp filter]. destruct (matches k e).
+  - cbn [app map ucons fst snd cr_tails]. rewrite IH. reflexivity.
+  - cbn [app]. exact IH.
+Qed.
+
+Lemma br_filter_all {A} (p : A -> bool) l : (forall x, In x l -> p x = true) -> filter p l = l.
+Proof.
+  induction l as [|a l IH]; intros H; [reflexivity|]. cbn. rewrite (H a (or_introl eq_refl)), IH; [reflexivity|].
+  intros x Hx. apply H. right. assumption.
+Qed.
+
+Lemma br_tails_map {A B} (f : A -> B) l : cr_tails (map f l) = map (map f) (cr_tails l).
+Proof. induction l as [|a l IH]; [reflexivity|]. cbn [map cr_tails]. rewrite IH. reflexivity. Qed.
+
+Lemma br_Erev_all s k : U64ok s k ->
+  Erev k U64MAX (abs_visible s)
+  = concat (map (fun g => rev (cr_tails g)) (rev (map (filter (matches k)) (abs_visible s)))).
+Proof.
+  intros HU. unfold Erev. rewrite br_filter_all.
+  - rewrite concat_map, map_map, cr_rev_concat, <- !map_rev, !map_map.
+    f_equal. apply map_ext. intros g. rewrite br_ucons_tails. reflexivity.
+  - intros x Hx. apply in_concat in Hx. destruct Hx as (l & Hl & Hx). apply in_map_iff in Hl.
+    destruct Hl as (g & <- & Hg). destruct (ksufp_split _ _ _ Hx) as (pre & rest & Hes & Hm & _).
+    unfold hle. apply N.leb_le. apply HU; [|assumption].
+    unfold all_events. apply in_concat. exists g. split; [assumption|]. rewrite Hes. apply in_or_app. right. left. reflexivity.
+Qed.
+
+Lemma br_rev_commits_map (h : event -> N * N) (groups : list (list event)) :
+  map (map h) (concat (map (fun g => rev (cr_tails g)) (rev groups)))
+  = cr_rev_commits (map (map h) groups).
+Proof.
+  unfold cr_rev_commits. rewrite concat_map, map_map, <- map_rev, map_map. f_equal. apply map_ext. intros g.
+  rewrite map_rev, br_tails_map. reflexivity.
+Qed.
+
+Theorem stream_version_over_scannable s sid W limit :
+  Scannable s (KStream sid) -> U64ok s (KStream sid) -> (0 < limit)%nat ->
+  exists batches, scan s (KStream sid) U64MAX Rev limit = Some batches /\
+    br_scommits batches
+    = cr_rev_commits (map (map br_sev) (map (filter (fun e => e_sid e =? sid)) (abs_visible s))) /\
+    stream_version (br_scommits batches) W
+    = match find (fun e => e_seq e <? W) (rev (spec_scan_stream_fwd (abs_visible s) sid 0)) with
+      | Some e => Some (e_ver e)
+      | None => None
+      end.
+Proof.
+  intros HS HU Hl. destruct (reverse_groups s _ U64MAX limit HS HU Hl) as (b & Hb & Hg & _).
+  exists b. split; [assumption|].
+  assert (E : br_scommits b
+              = cr_rev_commits (map (map br_sev) (map (filter (fun e => e_sid e =? sid)) (abs_visible s)))).
+  { unfold br_scommits, br_groups. rewrite Hg, (br_Erev_all s _ HU).
+    change (matches (KStream sid)) with (fun e => e_sid e =? sid). apply br_rev_commits_map. }
+  split; [exact E|]. rewrite E, stream_version_exact.
+  rewrite br_concat_map, <- filter_concat, <- map_rev.
+  assert (F : filter (fun e => e_sid e =? sid) (concat (abs_visible s)) = spec_scan_stream_fwd (abs_visible s) sid 0).
+  { unfold spec_scan_stream_fwd, all_events. apply filter_ext. intros e. destruct (e_sid e =? sid); [|reflexivity]. cbn [andb]. symmetry. apply N.leb_le. lia. }
+  rewrite F. induction (rev (spec_scan_stream_fwd (abs_visible s) sid 0)) as [|e l IH]; [reflexivity|].
+  cbn [map find br_sev snd]. destruct (e_seq e <? W); [reflexivity|exact IH].
+Qed.
+
+Theorem run_stream_version_over_storage ops sid W limit :
+  Forall StoreSimProofs.wf_op ops -> U64ok (run ops) (KStream sid) -> (0 < limit)%nat ->
+  exists batches, scan (run ops) (KStream sid) U64MAX Rev limit = Some batches /\
+    stream_version (br_scommits batches) W
+    = match find (fun e => e_seq e <? W) (rev (spec_scan_stream_fwd (abs_visible (run ops)) sid 0)) with
+      | Some e => Some (e_ver e)
+      | None => None
+      end.
+Proof.
+  intros Wf HU Hl. destruct (stream_version_over_scannable _ sid W limit (run_Scannable ops _ Wf) HU Hl) as (b & H1 & _ & H3).
+  exists b. split; assumption.
+Qed.
+
+(** ---- non-vacuity: the example store of C03 (two sealed segments and a live one with an unpublished append;
+    partitions 0 and 1; multi-stream transactions); counts: the event at sequence 6 of partition 0 is below the
+    quorum 2, so partition 0's watermark is 6 ---- *)
+Definition br_ex_ops : list op :=
+ [ OAppend (mkTxn 1 0 100 false [br_ne 1 7; br_ne 2 8; br_ne 3 7] XAny) false false;
+   OAppend (mkTxn 1 0 101 true [br_ne 4 7] XAny) false false;
+   OAppend (mkTxn 2 1 102 false [br_ne 5 9] XAny) false false;
+   OAppend (mkTxn 1 0 103 false [br_ne 6 8; br_ne 7 7; br_ne 8 7] XAny) true false;
+   OAppend (mkTxn 2 1 104 true [br_ne 9 9] XAny) false false;
+   OAppend (mkTxn 1 0 105 false [br_ne 10 7; br_ne 11 8] XAny) true false;
+   OAppend (mkTxn 1 0 106 true [br_ne 12 7] XAny) false false;
+   OSync;
+   OAppend (mkTxn 1 0 107 true [br_ne 13 7] XAny) false false ].
+Definition br_ex_conf (e : event) : N := if e_id e <? 8 then 2 else if e_id e =? 8 then 1 else 3.
+
+Example br_example_wf : Forall StoreSimProofs.wf_op br_ex_ops /\ br_routed (fun pk => pk - 1) br_ex_ops.
+Proof. split; repeat constructor; cbn; try discriminate; intros H; discriminate H. Qed.
+
+Example br_example_reads :
+  let s := run br_ex_ops in
+  length (sealed s) = 2%nat /\
+  br_watermark 2 br_ex_conf (abs_visible s) 0 = 6 /\ br_watermark 2 br_ex_conf (abs_visible s) 1 = 2 /\
+  br_log br_ex_conf (abs_visible s) 0
+    = [[(7, 2); (8, 2); (7, 2)]; [(7, 2)]; [(8, 2); (7, 2); (7, 1)]; [(7, 3); (8, 3)]; [(7, 3)]] /\
+  partition_read_store s 0 6 1 None 100 = Some ([1; 2; 3; 4; 5], false) /\
+  partition_read_store s 0 6 1 (Some 3) 100 = Some ([1; 2; 3], true) /\
+  partition_read_store s 0 6 0 None 2 = Some ([0; 1], true) /\
+  stream_read_store s 7 1 6 None 100 = Some ([(1, 2); (2, 3); (3, 5)], false) /\
+  stream_read_store s 7 0 6 (Some 2) 100 = Some ([(0, 0); (1, 2); (2, 3)], false) /\
+  stream_read_store s 8 0 6 None 1 = Some ([(0, 1)], true).
+Proof. vm_compute. repeat split; reflexivity. Qed.
+
+Example br_example_stream_version :
+  match scan (run br_ex_ops) (KStream 7) U64MAX Rev 2 with
+  | Some b => stream_version (br_scommits b) 6
+  | None => None
+  end = Some 3.
+Proof. vm_compute. reflexivity. Qed.
